@@ -54,6 +54,10 @@ pub struct Case {
     /// route: false = plain http, true = https through a CONNECT tunnel (TLS to the harness's rustls peer)
     #[serde(default)]
     pub tunnel: bool,
+    /// how a stalled response's body is consumed: 0 a read loop (plus two further reads after the first error), 1 bytes(),
+    /// 2 text_utf8(), 3 text()
+    #[serde(default)]
+    pub api: u8,
 }
 
 pub struct C13;
@@ -120,6 +124,8 @@ struct Observed {
     hung: bool,
     /// reads issued again after a read error that came before the overall deadline
     repolls: u32,
+    /// a read issued after the first error of a stalled response returned Ok(0)
+    reread_clean_eof: bool,
 }
 
 fn install_sched(sched: &[(u8, u8)]) {
@@ -155,6 +161,24 @@ fn client_part(case: &Case, url: &str, upload: bool, t0: Instant, obs: &mut Obse
                 obs.err_after_ms = Some(t0.elapsed().as_millis());
                 obs.err_text = format!("send: {e:?}");
             }
+            Ok(resp) if case.api != 0 && matches!(case.scenario, Scenario::Stall { .. }) => {
+                let r: Result<usize, String> = match case.api {
+                    1 => resp.bytes().map(|v| v.len()).map_err(|e| format!("{e:?}")),
+                    2 => resp.text_utf8().map(|v| v.len()).map_err(|e| format!("{e:?}")),
+                    _ => resp.text().map(|v| v.len()).map_err(|e| format!("{e:?}")),
+                };
+                match r {
+                    Ok(n) => {
+                        obs.clean_eof = true;
+                        obs.delivered = n;
+                        obs.eof_at_ms = Some(t0.elapsed().as_millis());
+                    }
+                    Err(e) => {
+                        obs.err_after_ms = Some(t0.elapsed().as_millis());
+                        obs.err_text = format!("helper: {e}");
+                    }
+                }
+            }
             Ok(mut resp) => {
                 let mut buf = vec![0u8; 70_000];
                 let mut i = 0;
@@ -188,6 +212,14 @@ fn client_part(case: &Case, url: &str, upload: bool, t0: Instant, obs: &mut Obse
                     if t0.elapsed() > Duration::from_secs(20) {
                         obs.err_text = "gave up after 20 s".into();
                         break;
+                    }
+                }
+                if matches!(case.scenario, Scenario::Stall { .. }) && obs.err_after_ms.is_some() && !obs.clean_eof {
+                    // the caller reads on after the error: a body that was cut must not turn into a finished one
+                    for _ in 0..2 {
+                        if let Ok(0) = resp.read(&mut buf[..512]) {
+                            obs.reread_clean_eof = true;
+                        }
                     }
                 }
                 if let Scenario::Complete { extra_reads, .. } = &case.scenario {
@@ -282,6 +314,7 @@ fn run_once(case: &Case) -> Result<Observed, String> {
             eof_at_ms: None,
             hung: false,
             repolls: 0,
+            reread_clean_eof: false,
         };
         client_part(case, &url, upload, t0, &mut obs, if tunnel { Some(proxy_port) } else { None });
         let _ = tx.send(obs);
@@ -374,40 +407,48 @@ labelled points of the watchdog / reader (verif-hooks H3). Oracle S1-S4. non-tri
             StallPoint::InCloseBody,
         ];
         for p in points {
-            v.push(Case { scenario: Scenario::Stall { point: p, drip_ms: 0 }, t_ms: 250, r_ms: 5000, reads: vec![4096], sched: vec![], tunnel: false });
+            v.push(Case { scenario: Scenario::Stall { point: p, drip_ms: 0 }, t_ms: 250, r_ms: 5000, reads: vec![4096], sched: vec![], tunnel: false, api: 0 });
             if p != StallPoint::Upload {
-                v.push(Case { scenario: Scenario::Stall { point: p, drip_ms: 30 }, t_ms: 300, r_ms: 150, reads: vec![1, 100], sched: vec![], tunnel: false });
-                v.push(Case { scenario: Scenario::Stall { point: p, drip_ms: 0 }, t_ms: 0, r_ms: 150, reads: vec![512], sched: vec![], tunnel: false });
+                v.push(Case { scenario: Scenario::Stall { point: p, drip_ms: 30 }, t_ms: 300, r_ms: 150, reads: vec![1, 100], sched: vec![], tunnel: false, api: 0 });
+                v.push(Case { scenario: Scenario::Stall { point: p, drip_ms: 0 }, t_ms: 0, r_ms: 150, reads: vec![512], sched: vec![], tunnel: false, api: 0 });
             }
         }
         for p in [StallPoint::BeforeReply, StallPoint::AfterHead, StallPoint::InChunkData, StallPoint::InLengthBody] {
             // overall timeout (almost) expired before the connection exists; and read timeout far below the overall timeout
-            v.push(Case { scenario: Scenario::Stall { point: p, drip_ms: 0 }, t_ms: 1, r_ms: 5000, reads: vec![4096], sched: vec![], tunnel: false });
-            v.push(Case { scenario: Scenario::Stall { point: p, drip_ms: 0 }, t_ms: 2500, r_ms: 150, reads: vec![4096], sched: vec![], tunnel: false });
+            v.push(Case { scenario: Scenario::Stall { point: p, drip_ms: 0 }, t_ms: 1, r_ms: 5000, reads: vec![4096], sched: vec![], tunnel: false, api: 0 });
+            v.push(Case { scenario: Scenario::Stall { point: p, drip_ms: 0 }, t_ms: 2500, r_ms: 150, reads: vec![4096], sched: vec![], tunnel: false, api: 0 });
         }
         for framing in 0..3u8 {
-            v.push(Case { scenario: Scenario::Complete { framing, payload: 500, extra_reads: vec![(10, 0), (10, 0)] }, t_ms: 300, r_ms: 5000, reads: vec![4096], sched: vec![], tunnel: false });
-            v.push(Case { scenario: Scenario::Complete { framing, payload: 500, extra_reads: vec![(10, 0), (10, 400), (1, 0)] }, t_ms: 250, r_ms: 5000, reads: vec![100], sched: vec![], tunnel: false });
-            v.push(Case { scenario: Scenario::Complete { framing, payload: 0, extra_reads: vec![(64, 350)] }, t_ms: 200, r_ms: 5000, reads: vec![4096], sched: vec![], tunnel: false });
+            v.push(Case { scenario: Scenario::Complete { framing, payload: 500, extra_reads: vec![(10, 0), (10, 0)] }, t_ms: 300, r_ms: 5000, reads: vec![4096], sched: vec![], tunnel: false, api: 0 });
+            v.push(Case { scenario: Scenario::Complete { framing, payload: 500, extra_reads: vec![(10, 0), (10, 400), (1, 0)] }, t_ms: 250, r_ms: 5000, reads: vec![100], sched: vec![], tunnel: false, api: 0 });
+            v.push(Case { scenario: Scenario::Complete { framing, payload: 0, extra_reads: vec![(64, 350)] }, t_ms: 200, r_ms: 5000, reads: vec![4096], sched: vec![], tunnel: false, api: 0 });
         }
         for p in [StallPoint::AfterHead, StallPoint::InLengthBody, StallPoint::InCloseBody] {
-            v.push(Case { scenario: Scenario::StallThenDrip { point: p, stall_ms: 270, drip_ms: 30 }, t_ms: 700, r_ms: 150, reads: vec![4096], sched: vec![], tunnel: false });
+            v.push(Case { scenario: Scenario::StallThenDrip { point: p, stall_ms: 270, drip_ms: 30 }, t_ms: 700, r_ms: 150, reads: vec![4096], sched: vec![], tunnel: false, api: 0 });
         }
-        v.push(Case { scenario: Scenario::SlowChain { delay_ms: 80 }, t_ms: 300, r_ms: 5000, reads: vec![4096], sched: vec![], tunnel: false });
-        v.push(Case { scenario: Scenario::SlowChain { delay_ms: 120 }, t_ms: 400, r_ms: 200, reads: vec![4096], sched: vec![], tunnel: false });
+        // bodies collected with the helpers: a read-timeout (or the deadline) inside the body ends the helper with an error too
+        for api in 1..4u8 {
+            for p in [StallPoint::InLengthBody, StallPoint::InCloseBody, StallPoint::InChunkData] {
+                v.push(Case { scenario: Scenario::Stall { point: p, drip_ms: 0 }, t_ms: 0, r_ms: 150, reads: vec![4096], sched: vec![], tunnel: false, api });
+                v.push(Case { scenario: Scenario::Stall { point: p, drip_ms: 0 }, t_ms: 2500, r_ms: 150, reads: vec![4096], sched: vec![], tunnel: false, api });
+            }
+            v.push(Case { scenario: Scenario::Stall { point: StallPoint::InCloseBody, drip_ms: 0 }, t_ms: 250, r_ms: 5000, reads: vec![4096], sched: vec![], tunnel: false, api });
+        }
+        v.push(Case { scenario: Scenario::SlowChain { delay_ms: 80 }, t_ms: 300, r_ms: 5000, reads: vec![4096], sched: vec![], tunnel: false, api: 0 });
+        v.push(Case { scenario: Scenario::SlowChain { delay_ms: 120 }, t_ms: 400, r_ms: 200, reads: vec![4096], sched: vec![], tunnel: false, api: 0 });
         // the same stalls inside a CONNECT tunnel (TLS between the client and the stalling origin)
         for p in [StallPoint::BeforeReply, StallPoint::InHeader, StallPoint::AfterHead, StallPoint::InChunkData, StallPoint::BetweenChunks, StallPoint::InLengthBody, StallPoint::InCloseBody] {
-            v.push(Case { scenario: Scenario::Stall { point: p, drip_ms: 0 }, t_ms: 300, r_ms: 5000, reads: vec![4096], sched: vec![], tunnel: true });
-            v.push(Case { scenario: Scenario::Stall { point: p, drip_ms: 25 }, t_ms: 350, r_ms: 150, reads: vec![64], sched: vec![], tunnel: true });
+            v.push(Case { scenario: Scenario::Stall { point: p, drip_ms: 0 }, t_ms: 300, r_ms: 5000, reads: vec![4096], sched: vec![], tunnel: true, api: 0 });
+            v.push(Case { scenario: Scenario::Stall { point: p, drip_ms: 25 }, t_ms: 350, r_ms: 150, reads: vec![64], sched: vec![], tunnel: true, api: 0 });
         }
         for framing in 0..3u8 {
-            v.push(Case { scenario: Scenario::Complete { framing, payload: 300, extra_reads: vec![(10, 0), (10, 450)] }, t_ms: 350, r_ms: 5000, reads: vec![4096], sched: vec![], tunnel: true });
+            v.push(Case { scenario: Scenario::Complete { framing, payload: 300, extra_reads: vec![(10, 0), (10, 450)] }, t_ms: 350, r_ms: 5000, reads: vec![4096], sched: vec![], tunnel: true, api: 0 });
         }
         // schedule perturbation at every labelled point, for a stalled and for a finished close-delimited response
         for l in 0..LABELS.len() as u8 {
-            v.push(Case { scenario: Scenario::Stall { point: StallPoint::InCloseBody, drip_ms: 0 }, t_ms: 200, r_ms: 5000, reads: vec![4096], sched: vec![(l, 150)], tunnel: false });
-            v.push(Case { scenario: Scenario::Stall { point: StallPoint::AfterHead, drip_ms: 0 }, t_ms: 200, r_ms: 5000, reads: vec![4096], sched: vec![(l, 150)], tunnel: false });
-            v.push(Case { scenario: Scenario::Complete { framing: 2, payload: 100, extra_reads: vec![(10, 0), (10, 300)] }, t_ms: 250, r_ms: 5000, reads: vec![4096], sched: vec![(l, 60)], tunnel: false });
+            v.push(Case { scenario: Scenario::Stall { point: StallPoint::InCloseBody, drip_ms: 0 }, t_ms: 200, r_ms: 5000, reads: vec![4096], sched: vec![(l, 150)], tunnel: false, api: 0 });
+            v.push(Case { scenario: Scenario::Stall { point: StallPoint::AfterHead, drip_ms: 0 }, t_ms: 200, r_ms: 5000, reads: vec![4096], sched: vec![(l, 150)], tunnel: false, api: 0 });
+            v.push(Case { scenario: Scenario::Complete { framing: 2, payload: 100, extra_reads: vec![(10, 0), (10, 300)] }, t_ms: 250, r_ms: 5000, reads: vec![4096], sched: vec![(l, 60)], tunnel: false, api: 0 });
         }
         Some(Box::new(v.into_iter().enumerate().filter(move |(i, _)| i % nworkers == worker).map(|(_, c)| c)))
     }
@@ -440,9 +481,9 @@ labelled points of the watchdog / reader (verif-hooks H3). Oracle S1-S4. non-tri
             proptest::collection::vec(prop_oneof![Just(1u16), 2u16..200, Just(4096u16), Just(65535u16)], 1..4),
             prop_oneof![3 => Just(vec![]), 1 => proptest::collection::vec((0u8..LABELS.len() as u8, 20u8..200), 1..3)],
             prop::bool::weighted(0.15),
-            prop::bool::weighted(0.25),
+            (prop::bool::weighted(0.25), prop_oneof![3 => Just(0u8), 1 => 1u8..4]),
         )
-            .prop_map(|(scenario, t_ms, r_ms, reads, sched, no_t, tunnel)| {
+            .prop_map(|(scenario, t_ms, r_ms, reads, sched, no_t, (tunnel, api))| {
                 let mut t_ms = t_ms;
                 // only the read timeout: a silent stall (not an upload, not dripping) must end by R
                 if no_t {
@@ -472,7 +513,7 @@ labelled points of the watchdog / reader (verif-hooks H3). Oracle S1-S4. non-tri
                 let sched = if matches!(scenario, Scenario::SlowChain { .. }) { vec![] } else { sched };
                 // the TLS handshake of the tunnel eats into a short overall timeout: give tunnelled cases a little more
                 let t_ms = if tunnel && t_ms > 0 { t_ms.max(250) } else { t_ms };
-                Case { scenario, t_ms, r_ms, reads, sched, tunnel }
+                Case { scenario, t_ms, r_ms, reads, sched, tunnel, api }
             })
             .boxed()
     }
@@ -517,6 +558,9 @@ labelled points of the watchdog / reader (verif-hooks H3). Oracle S1-S4. non-tri
                         // the server is still holding the connection open: a clean end can only come from the deadline shutdown
                         return Outcome::fail("C13:deadline-reported-as-end-of-body", describe);
                     }
+                    if obs.reread_clean_eof {
+                        return Outcome::fail("C13:cut-body-reported-complete-on-reread", format!("after the timeout error a further read returned Ok(0); {describe}"));
+                    }
                     let bound = if t > 0 { if *drip_ms == 0 { t.min(r) } else { t } } else { r };
                     match obs.err_after_ms {
                         None => timing_fail = Some(Outcome::fail("C13:no-timeout", format!("no call failed; {describe}"))),
@@ -546,6 +590,7 @@ labelled points of the watchdog / reader (verif-hooks H3). Oracle S1-S4. non-tri
                     ctx.label_if(*drip_ms > 0, "drip");
                     ctx.label_if(t == 0, "read-timeout-only");
                     ctx.label_if(repoll && obs.repolls > 0, "caller-read-again-after-read-timeout");
+                    ctx.label_if(case.api != 0 && !repoll, ["", "consumed-with:bytes", "consumed-with:text_utf8", "consumed-with:text"][case.api as usize % 4]);
                 }
                 Scenario::SlowChain { delay_ms } => {
                     ctx.nontrivial = true;
